@@ -314,6 +314,26 @@ def probe_cases():
               "<svg>x</svg><frameset>", "<svg> </svg><frameset>", "<math>\0</math><frameset>", "<table> </table><frameset>",
               "<select> </select><frameset>", "<template></template><frameset>", "<!--c--><frameset>"):
         out.append(mk_case([s]))
+    # foreign content: every name of the SVG tag / attribute adjustment tables, as start and end tag in mixed case,
+    # in documents and in svg / math fragments; integration points with break-out tags inside
+    adj = open(os.path.join(vcommon.COQ, "Gen", "GenAdjust.v")).read()
+    svg_tags = re.findall(r'\("([a-z]+)", "([A-Za-z]+)"\)', adj.split("Definition svg_attr_adjust")[0])
+    attr_names = re.findall(r'\("([a-z:]+)", \(', adj)
+    for low, camel in svg_tags:
+        for opener, closer in ((low, low), (camel, camel), (low, camel), (low.upper(), low)):
+            out.append(mk_case(["<svg><%s id=c><rect></rect></%s><g>x</g></svg><p>after" % (opener, closer)]))
+        out.append(mk_case(["<%s><stop/></%s><rect/>" % (low, camel)], frag="svg:svg"))
+        out.append(mk_case(["<%s>a</%s>b" % (low, low)], frag="math:math"))
+        out.append(mk_case(["<p><%s>a</%s>b" % (low, low)]))
+    for a in attr_names:
+        out.append(mk_case(["<svg %s=1 %s=2><g %s=3>" % (a, a.upper(), a)]))
+        out.append(mk_case(["<math %s=1><mi %s=3>" % (a, a)]))
+        out.append(mk_case(["<p %s=1>" % a]))
+    for ip in ("<svg><foreignObject>", "<svg><desc>", "<svg><title>", "<math><mi>", "<math><mtext>", "<math><annotation-xml>",
+               "<math><annotation-xml encoding=text/html>", "<math><annotation-xml encoding=APPLICATION/XHTML+XML>"):
+        for b in ("<b>x</b>y", "<p>x</p>y", "<table><tr><td>x", "<svg><b>x", "<math><b>x", "</p>x", "</br>x", "<font color=red>x",
+                  "<font>x", "<mglyph>x", "<malignmark>x", "</svg>x", "</math>x", "<svg></svg>x", "<li>x"):
+            out.append(mk_case([ip + b]))
     # pending-LF probes
     for n in ("pre", "listing", "textarea", "div", "title"):
         for t in ("\nx", "\n\nx", "&#10;x", "&#10x", "<!--c-->\nx", "\r\nx", "x\n"):
